@@ -365,7 +365,12 @@ func seqOf(n *kit.Node, peer netip.Addr) string {
 	h := &state.EncryptionSessionTestHelper{EncryptionSession: s.Encryption()}
 	one := func(sh *state.SequenceHandler) string {
 		v := reflect.ValueOf(sh).Elem()
-		return fmt.Sprintf("%x/%d/%d", v.FieldByName("bitMap").Uint(), v.FieldByName("highest").Uint(), v.FieldByName("outSeq").Field(1).Uint())
+		// outSeq is an atomic.Uint32 (or its scheduler shim wrapping one): descend to the number.
+		out := v.FieldByName("outSeq")
+		for out.Kind() == reflect.Struct {
+			out = out.Field(out.NumField() - 1)
+		}
+		return fmt.Sprintf("%x/%d/%d", v.FieldByName("bitMap").Uint(), v.FieldByName("highest").Uint(), out.Uint())
 	}
 	return one(h.PrioSeq()) + "," + one(h.ReglSeq())
 }
@@ -577,6 +582,7 @@ func TestC14(t *testing.T) {
 			scenario{"relay/B-lower/2-initiations/1-fault/1-clock", false, true, 2, 1, 1, 0, ""},
 		)
 	}
+	runHelloSched(t, rep, env)
 	for _, sc := range scs {
 		explore(t, rep, env, sc, cap1)
 	}
